@@ -30,6 +30,14 @@ fn mark(script: &Value, line: &str) {
     }
 }
 
+/// script["print"]: what the buildpack code prints to stdout without a final newline (it stays in the process's stdout buffer)
+fn chatter(script: &Value) {
+    if let Some(t) = script.get("print").and_then(Value::as_str) {
+        use std::io::Write as _;
+        let _ = write!(std::io::stdout(), "{t}");
+    }
+}
+
 fn md_json(m: &GenericMetadata) -> Value {
     m.as_ref().map_or(Value::Null, |t| toml_to_json(&toml::Value::Table(t.clone())))
 }
@@ -79,6 +87,7 @@ impl Buildpack for Bp {
 
     fn detect(&self, c: DetectContext<Self>) -> libcnb::Result<DetectResult, ScriptedError> {
         mark(&self.script, "detect");
+        chatter(&self.script);
         let mut d = common_dump(&c.app_dir, &c.buildpack_dir, &c.target, &c.platform, &c.buildpack_descriptor);
         d["phase"] = json!("detect");
         dump(&self.script, &d);
@@ -117,6 +126,7 @@ impl Buildpack for Bp {
 
     fn build(&self, c: BuildContext<Self>) -> libcnb::Result<BuildResult, ScriptedError> {
         mark(&self.script, "build");
+        chatter(&self.script);
         let mut d = common_dump(&c.app_dir, &c.buildpack_dir, &c.target, &c.platform, &c.buildpack_descriptor);
         d["phase"] = json!("build");
         d["layers_dir"] = json!(c.layers_dir.to_string_lossy());
